@@ -422,6 +422,10 @@ def run_shard(shard, ctx):
     if k == 'degenerate':
         items = [(t, 'degenerate') for t in DEGENERATE]
         items += [(f, 'valid') for f in c05.FUNC_FORMULAS]
+        # nests over the whole function set: a valid formula has to come out as loadable code whose member evaluates
+        from ..gen import exprs
+        g = exprs.Gen(rng)
+        items += [(g.formula(rng.choice('NNNTTBD'), rng.choice([2, 3, 4]))[0], 'valid') for _ in range(150 if ctx.tier == 'quick' else 3000)]
         odd = list(dict.fromkeys(ODD_AREA_FORMULAS))
         rng.shuffle(odd)
         items += [(f, 'odd-area') for f in odd[:240 if ctx.tier == 'quick' else len(odd)]]
